@@ -167,7 +167,41 @@ PROPS = {
                      "bounded run (C18 harness); RewardObserver.last_reward is proved to return the last emitted reward"],
     ),
     "C03": dict(level="exploration", functions=[], lemmas=[], tierb=True),
-    "C04": dict(level="exploration", functions=[], lemmas=[], tierb=True),
+    "C04": dict(
+        level="proof",
+        functions=["lemma_unfinished_job", "DispatchingRuleSolver.step", "DispatchingRuleSolver.solve",
+                   "shortest_processing_time_rule", "first_come_first_served_rule", "most_work_remaining_rule",
+                   "score_based_rule.rule", "score_based_rule_with_tie_breaker.rule",
+                   "shortest_processing_time_score", "first_come_first_served_score", "BaseSolver.__call__",
+                   "Dispatcher.available_operations", "Dispatcher.available_operations$raw",
+                   "Dispatcher.unscheduled_operations", "Dispatcher.dispatch", "Schedule.is_complete"],
+        lemmas=["reach-implies-feasible", "complete-iff-every-job-finished"],
+        tierb=True,
+        trusted=[T_OBSERVERS,
+                 "time.perf_counter() is a monotone clock (successive readings do not decrease)",
+                 "the rule, machine chooser and scoring function stored in a solver / closure are used through abstract "
+                 "contracts (rule: returns a ready operation of the instance and keeps the cache invariant; chooser: "
+                 "returns one of the operation's machines; score: one integer per job); the built-in rules and two "
+                 "built-in scoring functions are verified AGAINST these contracts, the machine choosers, "
+                 "most_operations_remaining_rule, random rules and the observer-based scorer are not (bounded run)",
+                 "MemberIdx(content, length, o): Skolem index for `o occurs in the list` (conservative definition, "
+                 "instantiated for the elements of the cached available list only)",
+                 "ghost lemma contracts/ghost_src.py::lemma_unfinished_job (sidecar Python, verified like repository "
+                 "code): a dispatcher whose schedule is not complete has a job with operations left"],
+        assumptions=[A_VALID,
+                     "proved: DispatchingRuleSolver.solve terminates (variant: operations left) with a complete schedule "
+                     "satisfying Reach (hence Feasible, lemma reach-implies-feasible) for ANY rule/chooser honouring the "
+                     "abstract contracts and any filter honouring the abstract filter contract, when a dispatcher is "
+                     "supplied (the `dispatcher is None` branch only constructs one); step() never raises; SPT and FCFS "
+                     "return an element of available_operations() minimal under duration / position_in_job; MWKR, "
+                     "score_based_rule(f).rule and the tie-breaker rule return an element of available_operations() and "
+                     "never raise (no empty max, no index error) for ANY scoring functions; SPT/FCFS scoring functions "
+                     "give each available operation's job the documented score; BaseSolver.__call__ stores a "
+                     "non-negative elapsed_time and the class name of the solver",
+                     "bounded only: that MWKR / MOR / score-based / tie-breaker selections are MAXIMAL (lexicographically "
+                     "best) under their criterion, equality of the direct and the observer-based MWKR rule (numpy), "
+                     "the factories and the 5 x 2 x filter configuration matrix, machine choosers"],
+    ),
     "C11": dict(level="exploration", functions=[], lemmas=[], tierb=True),
     "C12": dict(level="exploration", functions=[], lemmas=[], tierb=True),
     "C14": dict(level="exploration", functions=[], lemmas=[], tierb=True),
